@@ -50,6 +50,15 @@ static void run_one(case_t const& c)
                                                     sem->try_acquire_for(std::chrono::seconds(1));
                         nt("ret", o, r);
                     }
+                    else if (op.name == "timed0" || op.name == "timedneg")
+                    {
+                        // deadline already expired at the call (zero / negative duration): the permit test comes first,
+                        // so the result is still "a permit was available"; logged as an ordinary timed acquire
+                        pt("inv.timed", o);
+                        auto d = op.name == "timed0" ? std::chrono::milliseconds(0) : std::chrono::milliseconds(-5);
+                        bool r = kind == "binary" ? bsem->try_acquire_for(d) : sem->try_acquire_for(d);
+                        nt("ret", o, r);
+                    }
                     else if (op.name == "rel")
                     {
                         pt("inv.rel", o, a0);
